@@ -268,7 +268,16 @@ func (h *Session) ICMP6SendRouterAdvertisement(prefixes []PrefixInformation, rdn
 		return err
 	}
 
-	return h.icmp6SendPacket(Addr{MAC: h.NICInfo.HostAddr4.MAC, IP: h.NICInfo.HostLLA.Addr()}, dstAddr, mb)
+	return h.icmp6SendPacket(Addr{MAC: h.NICInfo.HostAddr4.MAC, IP: h.NICInfo.HostLLA.Addr()}, dstAddr, icmp6Message(ra.Type(), mb))
+}
+
+// icmp6Message puts the 4-byte ICMPv6 header (type, code 0, checksum 0 - set by icmp6SendPacket)
+// in front of an NDP message body: marshal() returns the body only.
+func icmp6Message(t ipv6.ICMPType, body []byte) []byte {
+	p := make([]byte, 4+len(body))
+	p[0] = byte(t)
+	copy(p[4:], body)
+	return p
 }
 
 func (h *Session) ICMP6SendRouterSolicitation() error {
@@ -285,7 +294,7 @@ func (h *Session) ICMP6SendRouterSolicitation() error {
 		return err
 	}
 
-	return h.icmp6SendPacket(Addr{MAC: h.NICInfo.HostAddr4.MAC, IP: h.NICInfo.HostLLA.Addr()}, IP6AllRoutersAddr, mb)
+	return h.icmp6SendPacket(Addr{MAC: h.NICInfo.HostAddr4.MAC, IP: h.NICInfo.HostLLA.Addr()}, IP6AllRoutersAddr, icmp6Message(m.Type(), mb))
 }
 
 func (h *Session) ICMP6SendNeighborAdvertisement(srcAddr Addr, dstAddr Addr, targetAddr Addr) error {
